@@ -19,9 +19,16 @@ rnd = random.Random(606)
 g = c06.Gen(rnd)
 cols0 = {"a": "int", "b": "int", "s": "str"}
 progs = c06.api_shapes() + c06.corpus() + [g.program(cols0, 6) for _ in range(int(os.environ.get("C06_NREC", "170")))]
-out = open("/verif/oracle/c06_pyspark.jsonl", "w")
-n = skipped = 0
+PATH = "/verif/oracle/c06_pyspark.jsonl"
 seen = set()
+if os.environ.get("C06_APPEND") and os.path.exists(PATH):      # only record programs that are not in the file yet
+    for line in open(PATH):
+        rc = json.loads(line)
+        seen.add((json.dumps(rc["steps"]), rc["table"]))
+    out = open(PATH, "a")
+else:
+    out = open(PATH, "w")
+n = skipped = 0
 for steps0 in progs:
     if not steps0 or not c06.well_formed(steps0):
         continue
@@ -29,7 +36,7 @@ for steps0 in progs:
     if mode == "sub":
         continue
     for tname, rows in c06.TABLES.items():
-        key = (repr(steps), tname)
+        key = (json.dumps(steps), tname)
         if key in seen:
             continue
         seen.add(key)
